@@ -49,6 +49,7 @@ instance : FloatLike Float where
   round := Float.round
   fract := fun x => x - (if x < 0 then x.ceil else x.floor)   -- `self - self.trunc()`
   isNormal := fun x => let e := (x.toBits >>> 52) &&& 0x7ff; e != 0 && e != 0x7ff
+  isFinite := fun x => let e := (x.toBits >>> 52) &&& 0x7ff; e != 0x7ff
   sqrt := Float.sqrt
   fmax := fmax
   toUsize := fun x => x.toUInt64.toNat
